@@ -25,6 +25,8 @@ type Program struct {
 	Patterns  []*Contract              // trusted contracts whose key ends in ".*"
 	UFuns     map[string]*UFun
 	Defines   map[string]*Define
+	Impls     map[string]*ImplDecl // iface key -> declaration
+	ImplType  map[string]types.Type
 	LoadErrs  []string
 	// globals stored to outside package init
 	MutableGlobals map[*ssa.Global]bool
@@ -88,7 +90,7 @@ func Load(repoDir string, patterns []string) (*Program, error) {
 	if err != nil {
 		return nil, err
 	}
-	p := &Program{RepoDir: repoDir, Pkgs: pkgs, Funcs: map[string]*ssa.Function{}, Contracts: map[string]*Contract{}, UFuns: map[string]*UFun{}, Defines: map[string]*Define{}, MutableGlobals: map[*ssa.Global]bool{}, GlobalInit: map[*ssa.Global]*ssa.Const{}}
+	p := &Program{RepoDir: repoDir, Pkgs: pkgs, Funcs: map[string]*ssa.Function{}, Contracts: map[string]*Contract{}, UFuns: map[string]*UFun{}, Defines: map[string]*Define{}, Impls: map[string]*ImplDecl{}, ImplType: map[string]types.Type{}, MutableGlobals: map[*ssa.Global]bool{}, GlobalInit: map[*ssa.Global]*ssa.Const{}}
 	for _, pk := range pkgs {
 		for _, e := range pk.Errors {
 			p.LoadErrs = append(p.LoadErrs, e.Error())
@@ -166,6 +168,9 @@ func (p *Program) addSpecs(sf *SpecFile) error {
 	}
 	for _, u := range sf.UFuns {
 		p.UFuns[u.Name] = u
+	}
+	for _, im := range sf.Impls {
+		p.Impls[im.Iface] = im
 	}
 	for _, c := range sf.Contracts {
 		if strings.HasSuffix(c.Key, ".*") {
@@ -337,4 +342,59 @@ func DumpSSA(repo, pkg, name string) {
 		fmt.Println("KEY", k)
 		p.Funcs[k].WriteTo(os.Stdout)
 	}
+}
+
+// ResolveImpls type-checks the impl declarations and verifies the closed world:
+// every conversion of a concrete value to the interface (in non-test code of the
+// loaded packages) is from the declared type.
+func (p *Program) ResolveImpls() error {
+	for key, im := range p.Impls {
+		var pkg *packages.Package
+		for _, pk := range p.Pkgs {
+			if pk.PkgPath == im.Pkg {
+				pkg = pk
+			}
+		}
+		if pkg == nil {
+			return fmt.Errorf("%s:%d: package %s not loaded", im.File, im.Line, im.Pkg)
+		}
+		name := strings.TrimPrefix(im.Impl, "*")
+		o := pkg.Types.Scope().Lookup(name)
+		tn, ok := o.(*types.TypeName)
+		if !ok {
+			return fmt.Errorf("%s:%d: unknown type %s", im.File, im.Line, im.Impl)
+		}
+		var t types.Type = tn.Type()
+		if strings.HasPrefix(im.Impl, "*") {
+			t = types.NewPointer(t)
+		}
+		io := pkg.Types.Scope().Lookup(key[strings.LastIndex(key, ".")+1:])
+		itn, ok := io.(*types.TypeName)
+		if !ok {
+			return fmt.Errorf("%s:%d: unknown interface %s", im.File, im.Line, key)
+		}
+		iface, ok := itn.Type().Underlying().(*types.Interface)
+		if !ok || !types.Implements(t, iface) {
+			return fmt.Errorf("%s:%d: %s does not implement %s", im.File, im.Line, im.Impl, key)
+		}
+		p.ImplType[key] = t
+		// closed world
+		for _, f := range p.Funcs {
+			for _, b := range f.Blocks {
+				for _, in := range b.Instrs {
+					switch x := in.(type) {
+					case *ssa.MakeInterface:
+						if types.Identical(x.Type(), itn.Type()) && !types.Identical(x.X.Type(), t) {
+							return fmt.Errorf("%s:%d: closed-world check failed: %s is also implemented by %s (in %s)", im.File, im.Line, key, x.X.Type(), f.Name())
+						}
+					case *ssa.ChangeInterface:
+						if types.Identical(x.Type(), itn.Type()) && !types.Identical(x.X.Type(), itn.Type()) {
+							return fmt.Errorf("%s:%d: closed-world check failed: %s values are converted from interface %s (in %s)", im.File, im.Line, key, x.X.Type(), f.Name())
+						}
+					}
+				}
+			}
+		}
+	}
+	return nil
 }
